@@ -231,6 +231,19 @@ def check(ctx):
                          "position on that batch goes through optimizer.update and "
                          "apply_updates, and position and optimiser state are written back",
            ok_step, stmt="optimiser step applied")
+    fo = repo.func("liesel.goose.optim._find_observed")
+    rfo = evaluate(repo, fo)
+    obs_calls = [t for t, _, _ in evaluate(repo, repo.func("liesel.goose.optim.optim_flat")).calls
+                 if is_call(t, "liesel.goose.optim._find_observed")]
+    rt_o = rfo.ret()
+    ctx.ob("C20.R1", fo, "the observed values the batches are cut from are read from the "
+                         "training model in this call (a comprehension over model.vars of "
+                         "the observed variables' current values)",
+           len(obs_calls) == 1 and kw(obs_calls[0], "model", 0) == n("model_train")
+           and rt_o is not None and "model.vars" in pretty(rt_o)
+           and ".value" in pretty(rt_o) and not any(
+               isinstance(x, tuple) and x and x[0] in ("phi", "ifexp") for x in subterms(rt_o)),
+           detail=short(rt_o or (), 160), stmt="observed values of this call")
     ctx.ob("C20.R1", body, "one gradient step per batch: step i uses batches[i], for i = 0 .. "
                            "len(batches) - 1", ok_use and ok_loop_b,
            detail=f"gradient batch {short(kw(gcalls[0], 'batch_indices', 1) or ()) if gcalls else None}",
